@@ -36,6 +36,8 @@ def parse_fact(txt):
 
 
 def _lin(s):
+    if isinstance(s, int):
+        return {1: s}
     out = {1: 0}
     for sg, coef, name in re.findall(r'([+-]?)\s*(\d+)?\s*\*?\s*([A-Za-z_][A-Za-z_0-9]*)?', s):
         if not coef and not name:
@@ -77,7 +79,14 @@ def _resolve(fn, L, extra=None):
         if k.startswith('m_'):
             out[('f', k)] = out.get(('f', k), 0) + v
             continue
+        m_ = re.match(r'^(rows|cols)_(\w+)$', k)
+        if m_:
+            key = ('x', '%s.%s' % (m_.group(2), m_.group(1)))
+            out[key] = out.get(key, 0) + v
+            continue
         ids = [i for i in fn.params if fn.locals[i]['name'] == k]
+        if not ids:
+            ids = [i for i, lv in fn.locals.items() if lv['name'] == k and lv['type'].replace('const ', '') in ('long', 'int', 'unsigned long')]
         if not ids:
             return None
         out[('v', ids[0])] = out.get(('v', ids[0]), 0) + v
@@ -115,23 +124,32 @@ class Spec:
         self.local_extents = local_extents or {}
 
 
+def _con(spec, name, nparams):
+    """contract of a member: the arity-specific entry 'name/N' wins over 'name'"""
+    return spec.members.get('%s/%d' % (name, nparams), spec.members.get(name))
+
+
+def _has(spec, name):
+    return name in spec.members or any(k.split('/')[0] == name for k in spec.members)
+
+
 def _callee_key(n):
     return (n.get('cls'), n.get('callee'))
 
 
-def verify(ctx, spec, check_sites, rule, min_sites=0, extra_post=None, collect=None, extra_sites=None):
+def verify(ctx, spec, check_sites, rule, min_sites=0, extra_post=None, collect=None, extra_sites=None, entry_extra=None):
     """check_sites(fn, rec, ext_of) -> (n, problems) is the site checker of C13 (shared)."""
     F = ctx.F
     fns = {}
     for fn in F.concrete():
-        if fn.cls == spec.cls and fn.cfg and not fn.d.get('ctor') and fn.name in spec.members:
+        if fn.cls == spec.cls and fn.cfg and not fn.d.get('ctor') and _has(spec, fn.name) and _con(spec, fn.name, len(fn.params)) is not None:
             fns.setdefault(fn.mangled, fn)
     if not fns:
         raise AnalysisBroken('%s: no contracted member is instantiated' % spec.cls)
     total_sites = 0
     seen_names = set()
     for fn in fns.values():
-        con = spec.members[fn.name]
+        con = _con(spec, fn.name, len(fn.params))
         seen_names.add(fn.name)
         entry = ranges.State(DBM())
         bad_spec = []
@@ -144,6 +162,8 @@ def verify(ctx, spec, check_sites, rule, min_sites=0, extra_post=None, collect=N
                     add_fact(entry, R)
         if bad_spec:
             raise AnalysisBroken('%s: contract mentions unknown names: %s' % (fn.qname, bad_spec))
+        if entry_extra is not None:
+            entry_extra(fn, entry)
 
         def post_hook(f, st, n, spec=spec):
             if extra_post is not None:
@@ -161,14 +181,16 @@ def verify(ctx, spec, check_sites, rule, min_sites=0, extra_post=None, collect=N
                     tgt, call = v, c
             elif n['k'] in ('CXXMemberCallExpr', 'CallExpr'):
                 call = n
-            if call is None or call.get('cls') != spec.cls or call.get('callee') not in spec.members:
+            if call is None or call.get('cls') != spec.cls or not _has(spec, call.get('callee')):
                 return
-            callee = spec.members[call['callee']]
-            cands = [g for g in fns.values() if g.name == call['callee']]
+            args = f.call_args(call)
+            cands = [g for g in fns.values() if g.name == call['callee'] and len(g.params) == len(args)]
             if not cands:
                 return
             g = cands[0]
-            args = f.call_args(call)
+            callee = _con(spec, g.name, len(g.params))
+            if callee is None:
+                return
             sub = {}
             for i, pid in enumerate(g.params):
                 if i < len(args):
@@ -201,6 +223,9 @@ def verify(ctx, spec, check_sites, rule, min_sites=0, extra_post=None, collect=N
         # rows() / cols() / size() of an array with a declared extent is that extent (when it is a single variable)
         def extent_value(f, n, spec=spec):
             ob = f.strip(f.call_object(n)) if f.call_object(n) is not None else None
+            if ob is not None and ob['k'] == 'DeclRefExpr' and 'var' in ob and ob['var'] in f.params and n['callee'] in ('rows', 'cols') \
+                    and f.locals[ob['var']]['name'] in getattr(spec, 'symbolic_params', ()):
+                return (('x', '%s.%s' % (f.locals[ob['var']]['name'], n['callee'])), 0)
             fld = f.field_name(ob) if ob is not None else None
             dims = spec.extents.get(fld)
             if dims is None:
@@ -228,6 +253,7 @@ def verify(ctx, spec, check_sites, rule, min_sites=0, extra_post=None, collect=N
             raise
         inst = '%s::%s' % (spec.cls.replace('Spectra::', ''), fn.name)
         problems = []
+        notes = []
         # ---- index obligations
         lext = {}
         for (lname, dims) in spec.local_extents.get(fn.name, {}).items():
@@ -320,18 +346,33 @@ def verify(ctx, spec, check_sites, rule, min_sites=0, extra_post=None, collect=N
         for c in fn.walk():
             if c['k'] not in ('CXXMemberCallExpr', 'CallExpr'):
                 continue
-            if c.get('cls') == spec.cls and c.get('callee') in spec.members:
-                cands = [g for g in fns.values() if g.name == c['callee']]
+            if c.get('cls') == spec.cls and _has(spec, c.get('callee')):
+                args = fn.call_args(c)
+                cands = [g for g in fns.values() if g.name == c['callee'] and len(g.params) == len(args)]
                 if not cands:
                     continue
                 g = cands[0]
+                gcon = _con(spec, g.name, len(g.params))
                 z = rec.get(fn.pos_of(c))
-                if z is None:
+                if z is None or gcon is None:
                     continue          # unreachable in the analysis
+                if fn.name in gcon.get('callsite_assumed', {}):
+                    notes.append('precondition of %s at its call in %s: %s' % (g.name, fn.name, gcon['callsite_assumed'][fn.name]))
+                    continue
                 ncall += 1
-                args = fn.call_args(c)
                 sub = {g.locals[pid]['name']: (ranges.linform(fn, args[i]) if i < len(args) else None) for i, pid in enumerate(g.params)}
-                for pname, dims in spec.members[c['callee']].get('ptr', {}).items():
+                for i, pid in enumerate(g.params):
+                    if i < len(args):
+                        b_ = None
+                        for y_ in fn.walk(args[i]['id']):
+                            if y_['k'] == 'CXXMemberCallExpr' and y_.get('callee') == 'block':
+                                b_ = y_
+                                break
+                        if b_ is not None and b_['k'] == 'CXXMemberCallExpr' and b_.get('callee') == 'block' and len(fn.call_args(b_)) == 4:
+                            ba = fn.call_args(b_)
+                            sub['rows_' + g.locals[pid]['name']] = ranges.linform(fn, ba[2])
+                            sub['cols_' + g.locals[pid]['name']] = ranges.linform(fn, ba[3])
+                for pname, dims in gcon.get('ptr', {}).items():
                     i_ = [g.locals[pid]['name'] for pid in g.params].index(pname)
                     act = ext_of_ptr(args[i_])
                     want = [_resolve(fn, _lin(t), extra=sub) for t in dims]
@@ -343,12 +384,18 @@ def verify(ctx, spec, check_sites, rule, min_sites=0, extra_post=None, collect=N
                             d_ = ranges.lf_sub(w, a0)
                             if (eq and d_ != {1: 0}) or (not eq and not ranges.prove_nonpos(z, d_)):
                                 problems.append('call %s: the array behind `%s` is smaller than the callee assumes (%s)' % (fn.s(c)[:50], pname, dims))
-                for txt in spec.members[c['callee']].get('pre', []):
+                for txt in gcon.get('pre', []):
                     for L in parse_fact(txt):
                         R = _resolve(fn, L, extra=sub)
                         if R is None or not ranges.prove_nonpos(z, R):
                             problems.append('call %s: cannot prove the precondition `%s`' % (fn.s(c)[:50], txt))
-            if c.get('callee') in spec.windows and (c.get('cls') == spec.cls or c.get('cls') is None):
+            wkey = '%s/%d' % (c.get('callee'), len(fn.call_args(c))) if c.get('callee') else None
+            if wkey in spec.windows and (c.get('cls') == spec.cls or c.get('cls') is None):
+                z = rec.get(fn.pos_of(c))
+                if z is not None:
+                    ncall += 1
+                    problems += _window_call(fn, z, c, spec, ext_of, key=wkey)
+            elif c.get('callee') in spec.windows and (c.get('cls') == spec.cls or c.get('cls') is None):
                 z = rec.get(fn.pos_of(c))
                 if z is None:
                     continue
@@ -382,9 +429,9 @@ def verify(ctx, spec, check_sites, rule, min_sites=0, extra_post=None, collect=N
         zone.EXTENT_VALUE = old_hook
         ctx.check(not problems, rule, inst, fn.qname,
                   '%d index / view sites inside their arrays, %d call preconditions, %d postconditions, for all sizes under `%s`' %
-                  (nsite, ncall, len(posts), '; '.join(con.get('pre', [])) or 'true')
+                  (nsite, ncall, len(posts), '; '.join(con.get('pre', [])) or 'true') + ('; discharged elsewhere: ' + '; '.join(notes) if notes else '')
                   if not problems else '; '.join(sorted(set(problems))[:5]))
-    missing = set(spec.members) - seen_names
+    missing = set(k.split('/')[0] for k in spec.members) - seen_names
     if missing:
         raise AnalysisBroken('%s: contracted members not instantiated: %s' % (spec.cls, sorted(missing)))
     if total_sites < min_sites:
@@ -392,11 +439,11 @@ def verify(ctx, spec, check_sites, rule, min_sites=0, extra_post=None, collect=N
     return total_sites
 
 
-def _window_call(fn, z, c, spec, ext_of):
+def _window_call(fn, z, c, spec, ext_of, key=None):
     """Kernel taking a raw pointer to element (r, c0) of a column-major matrix plus a stride: the (rows x cols) window starting
     there must lie inside the matrix and the stride must be the matrix's column stride."""
-    w = spec.windows[c['callee']]
-    pname, rows, cols, stride = w['ptr'], w['rows'], w['cols'], w['stride']
+    w = spec.windows[key or c['callee']]
+    pname, rows, cols, stride = w['ptr'], w['rows'], w['cols'], w.get('stride')
     args = fn.call_args(c)
     amap = dict(zip(w['params'], args))
     probs = []
@@ -435,6 +482,8 @@ def _window_call(fn, z, c, spec, ext_of):
                 ok = True
         if not ok:
             probs.append('%s: the %s-window may extend past the last of the %s' % (what, dim if isinstance(dim, int) else fn.s(amap[dim]), nm))
+    if stride is None:
+        return probs
     st = ranges.linform(fn, amap[stride])
     if st is None or ranges.lf_sub(st, e[0]) != {1: 0} and {k: v for k, v in ranges.lf_sub(st, e[0]).items() if v != 0} != {}:
         probs.append('%s: stride %s is not the column stride of the matrix' % (what, fn.s(amap[stride])))
@@ -744,3 +793,25 @@ def packed_sites(pk):
                     need(z, ranges.lf_sub(tot, N), what, 'destination range ends inside its column')
         return nsite, probs
     return run
+
+
+def verify_dense(ctx, spec, dense, check_sites, rule, min_sites=0):
+    """contracts.verify plus the dense pointer model (rules/densemodel.py)."""
+    def resolve(fn, txt):
+        if isinstance(txt, int):
+            return {1: txt}
+        return _resolve(fn, _lin(txt))
+    old_pv, old_ps = zone.PTR_VARS, zone.PTR_STEP
+    zone.PTR_VARS = lambda f: set(dense.table(f, resolve))
+    zone.PTR_STEP = dense.make_step(resolve)
+
+    def entry_extra(fn, st):
+        # pointer PARAMETERS of the table start at the origin of their window
+        for vid, arr in dense.table(fn, resolve).items():
+            if vid in fn.params:
+                st.d.assign_var_plus(('v', vid), 'Z', 0)
+                st.d.assign_var_plus(('pc', vid), 'Z', 0)
+    try:
+        return verify(ctx, spec, check_sites, rule, min_sites=min_sites, extra_sites=dense.sites(resolve), entry_extra=entry_extra)
+    finally:
+        zone.PTR_VARS, zone.PTR_STEP = old_pv, old_ps
